@@ -3641,6 +3641,9 @@ class Canon:
                     continue
                 if early and fn is not None and m is fn:
                     continue            # (the method's own definition is not a call of itself; calls its halves make later on are)
+                # (no subclass in the program gives the method another body: `self.m(..)` then runs this one)
+                if any(k2 is not k_ and k_ in k2.mro and name in k2.methods for m2 in self.prog.modules.values() for k2 in m2.classes.values()):
+                    continue
                 pats.append((name, sn, ps, e, inner[0]))
         if not pats:
             return stmts
